@@ -22,6 +22,7 @@ type pair struct{ s, c uint16 }
 func (p pair) String() string { return fmt.Sprintf("(%d,%d)", p.s, p.c) }
 
 type vlanSys struct {
+	conc  bool // Engine B: no per-operation before/after checks, only the end-state Check
 	a     *nexus.VLANAllocator
 	cfg   nexus.VLANAllocatorConfig
 	ntes  []string
@@ -118,8 +119,32 @@ func (s *vlanSys) frame(op, site string, before map[string]pair, except ...strin
 	}
 }
 
+func (s *vlanSys) applyRaw(name string, args []string) string {
+	switch name {
+	case "Allocate":
+		a, err := s.a.Allocate(args[0])
+		if err != nil {
+			return "err"
+		}
+		return pair{a.STag, a.CTag}.String()
+	case "AllocateWithSTag":
+		st, _ := strconv.Atoi(args[1])
+		a, err := s.a.AllocateWithSTag(args[0], uint16(st))
+		if err != nil {
+			return "err"
+		}
+		return pair{a.STag, a.CTag}.String()
+	case "Release":
+		s.a.Release(args[0])
+	}
+	return "ok"
+}
+
 func (s *vlanSys) Apply(op string) string {
 	name, args := argsOf(op)
+	if s.conc {
+		return s.applyRaw(name, args)
+	}
 	before := s.all()
 	switch name {
 	case "Allocate":
